@@ -1,26 +1,423 @@
-"""Symbolic-length sequences and heap references (used by the C01 timeline proofs). See heap.py."""
-from .sym import EngineLimit
+"""Heap references and symbolic-length sequences.
+
+Heap: one z3 array per declared field (Ref -> value); references are z3 Ints (0 is None); objects allocated on the
+current path get refs alloc0+1, alloc0+2, ... which are provably distinct from every pre-existing ref (<= alloc0).
+SymSeq: (length n, z3 Array Int -> Int) modelling a 1-D ndarray of objects / a Python list of ints, with Python
+index semantics and explicit bounds splits (IndexError paths are explored, not assumed away).
+
+Trusted contracts used here (listed in evidence): np.searchsorted(left/right) on a sequence sorted by key,
+np.insert, np.delete, list.insert, slicing of 1-D sequences.
+"""
+import ast
+
+import z3
+
+from . import sym
+from .engine import PyRaise
+from .sym import EngineLimit, Sym, SymBool, SymInt, SymReal, mkbool, sand, snot, sor, zb, zint
+
+INF = float("inf")
 
 
-class SymSeq:
-    pass
+class Heap:
+    def __init__(self, eng, classes):
+        """classes: {cls: {field: kind}}, kind in 'int' | 'ref' | 'optint' | 'py'"""
+        self.eng = eng
+        self.classes = classes
+        self.fields = {}
+        self.kinds = {}
+        for cls, fs in classes.items():
+            for f, k in fs.items():
+                self.kinds[f] = k
+                if k in ("int", "ref", "optint"):
+                    self.fields[f] = z3.Array("H_" + f, z3.IntSort(), z3.IntSort())
+                if k == "optint":
+                    self.fields[f + "?none"] = z3.Array("H_" + f + "_none", z3.IntSort(), z3.BoolSort())
+        self.alloc0 = z3.Int("alloc0")
+        eng.assume(self.alloc0 >= 0)
+        self.nalloc = 0
+        self.local = {}  # (k, field) -> python value, for objects allocated on this path (k = allocation ordinal)
+        self.class_of_new = {}
+        self.version = 0
+
+    def snapshot(self):
+        return dict(self.fields)
+
+    def new(self, cls):
+        self.nalloc += 1
+        r = Ref(z3.simplify(self.alloc0 + self.nalloc), cls, self, new=self.nalloc)
+        return r
+
+    def static_fields(self, cls):
+        for k, fs in self.classes.items():
+            if k is cls or (isinstance(cls, type) and isinstance(k, type) and issubclass(cls, k)):
+                return fs
+        return None
+
+    def load(self, ref, name, ip):
+        fs = self.static_fields(ref.cls)
+        if fs is None or name not in fs:
+            if ref.new is not None and (ref.new, name) in self.local:
+                return self.local[(ref.new, name)]
+            # methods / class attributes
+            import inspect
+            import types
+            from .interp import BoundMethod, _defining_class
+            cattr = inspect.getattr_static(ref.cls, name, None)
+            if isinstance(cattr, types.FunctionType):
+                return BoundMethod(ref, cattr, _defining_class(ref.cls, name))
+            if isinstance(cattr, property):
+                return ip.call(BoundMethod(ref, cattr.fget, _defining_class(ref.cls, name)), [], {})
+            if name == "__class__":
+                return ref.cls
+            raise EngineLimit("field %s of %s is not in the heap model" % (name, ref.cls.__name__))
+        self._nonnull(ref, name)
+        kind = fs[name]
+        if ref.new is not None and (ref.new, name) in self.local:
+            return self.local[(ref.new, name)]
+        if kind == "py":
+            raise EngineLimit("python-valued field %s of a symbolic reference" % name)
+        v = z3.simplify(z3.Select(self.fields[name], ref.z))
+        if kind == "int":
+            return SymInt(v) if not z3.is_int_value(v) else v.as_long()
+        if kind == "ref":
+            tcls = fs.get("@" + name, ref.cls)
+            return Ref(v, tcls, self)
+        if kind == "optint":
+            isn = z3.simplify(z3.Select(self.fields[name + "?none"], ref.z))
+            if z3.is_true(isn):
+                return None
+            if z3.is_false(isn):
+                return SymInt(v) if not z3.is_int_value(v) else v.as_long()
+            if self.eng.decide(isn, "isnone"):
+                return None
+            return SymInt(v)
+
+    def _nonnull(self, ref, name):
+        c = z3.simplify(ref.z == 0)
+        if z3.is_false(c):
+            return
+        if z3.is_true(c) or self.eng.decide(c, "null"):
+            raise PyRaise(AttributeError, "'NoneType' object has no attribute '%s'" % name)
+
+    def store(self, ref, name, v, ip):
+        fs = self.static_fields(ref.cls)
+        if fs is None or name not in fs:
+            if ref.new is not None:
+                self.local[(ref.new, name)] = v
+                return
+            raise EngineLimit("store to field %s outside the heap model" % name)
+        self._nonnull(ref, name)
+        kind = fs[name]
+        self.version += 1
+        if ref.new is not None:
+            self.local.pop((ref.new, name), None)
+        if kind == "py":
+            if ref.new is None:
+                raise EngineLimit("python-valued field store on symbolic reference")
+            self.local[(ref.new, name)] = v
+            return
+        if kind == "int":
+            if isinstance(v, float) and v == INF and ref.new is not None:
+                self.local[(ref.new, name)] = v
+                return
+            self.fields[name] = z3.Store(self.fields[name], ref.z, zint(v))
+            return
+        if kind == "ref":
+            if v is None:
+                z = z3.IntVal(0)
+            elif isinstance(v, Ref):
+                z = v.z
+            else:
+                raise EngineLimit("store of non-reference into reference field")
+            self.fields[name] = z3.Store(self.fields[name], ref.z, z)
+            return
+        if kind == "optint":
+            if v is None:
+                self.fields[name + "?none"] = z3.Store(self.fields[name + "?none"], ref.z, z3.BoolVal(True))
+            else:
+                self.fields[name + "?none"] = z3.Store(self.fields[name + "?none"], ref.z, z3.BoolVal(False))
+                self.fields[name] = z3.Store(self.fields[name], ref.z, zint(v))
+
+    # logical (side-effect free, no null checks) reads for specifications
+    def sel(self, name, refz, fields=None):
+        fields = fields if fields is not None else self.fields
+        return z3.Select(fields[name], refz)
 
 
 class Ref:
-    pass
+    """reference to a heap object (z3 Int; 0 = None)"""
+    __pyv_symbolic__ = True
+
+    def __init__(self, z, cls, heap, new=None):
+        self.z = z
+        self.cls = cls
+        self.heap = heap
+        self.new = new
+
+    def __repr__(self):
+        return "Ref(%s:%s)" % (self.cls.__name__, self.z)
+
+    def isinstance(self, t, ip):
+        if isinstance(t, tuple):
+            return any(self.isinstance(x, ip) for x in t)
+        return issubclass(self.cls, t)
+
+    def type_of(self, ip):
+        return self.cls
+
+    def __hash__(self):
+        raise EngineLimit("heap reference used as hash key")
+
+    def __eq__(self, o):
+        raise EngineLimit("== on heap reference outside the interpreter")
+
+
+def ref_is(a, b):
+    za = a.z if isinstance(a, Ref) else (z3.IntVal(0) if a is None else None)
+    zb_ = b.z if isinstance(b, Ref) else (z3.IntVal(0) if b is None else None)
+    if za is None or zb_ is None:
+        return False
+    return mkbool(za == zb_)
+
+
+def ref_compare(ip, op, a, b):
+    """rich comparison of heap objects: dispatch to the class's real methods (ComparableMixin) by interpretation"""
+    import inspect
+    import types
+    from .interp import BoundMethod, _defining_class
+    nm = {ast.Eq: "__eq__", ast.NotEq: "__ne__", ast.Lt: "__lt__", ast.LtE: "__le__", ast.Gt: "__gt__", ast.GtE: "__ge__"}[op]
+    x, y = (a, b) if isinstance(a, Ref) else (b, a)
+    if x is b:
+        nm = {"__lt__": "__gt__", "__gt__": "__lt__", "__le__": "__ge__", "__ge__": "__le__"}.get(nm, nm)
+    m = inspect.getattr_static(x.cls, nm, None)
+    if isinstance(m, types.FunctionType):
+        return ip.call(BoundMethod(x, m, _defining_class(x.cls, nm)), [y], {})
+    if op is ast.Eq:
+        return ref_is(a, b)
+    if op is ast.NotEq:
+        r = ref_is(a, b)
+        return snot(r) if isinstance(r, Sym) else (not r)
+    raise PyRaise(TypeError, "unorderable heap objects")
+
+
+class SymSeq:
+    """sequence of symbolic length.  elem: 'int' or a class (references).  mutable=True models a Python list
+    (insert/setitem in place), mutable=False a numpy array treated as a value (np.insert/np.delete return new ones)."""
+    _ctr = [0]
+    __pyv_symbolic__ = True
+
+    def __init__(self, n, arr, elem, heap=None, mutable=False, key_field=None, kind="ndarray"):
+        self.n = n
+        self.arr = arr
+        self.elem = elem
+        self.heap = heap
+        self.mutable = mutable
+        self.key_field = key_field
+        self.kind = kind
+
+    @classmethod
+    def fresh(cls, name, elem, eng, heap=None, mutable=False, key_field=None, kind="ndarray"):
+        n = z3.Int(name + "#len")
+        arr = z3.Array(name, z3.IntSort(), z3.IntSort())
+        eng.assume(n >= 0)
+        return cls(n, arr, elem, heap, mutable, key_field, kind)
+
+    def clone(self, n=None, arr=None):
+        return SymSeq(self.n if n is None else n, self.arr if arr is None else arr, self.elem, self.heap, self.mutable,
+                      self.key_field, self.kind)
+
+    def length(self):
+        n = z3.simplify(self.n)
+        return n.as_long() if z3.is_int_value(n) else SymInt(n)
+
+    def isinstance(self, t):
+        import numpy as np
+        ts = t if isinstance(t, tuple) else (t,)
+        if self.kind == "list":
+            return list in ts
+        return np.ndarray in ts
+
+    def wrap(self, z):
+        z = z3.simplify(z)
+        if self.elem == "int":
+            return z.as_long() if z3.is_int_value(z) else SymInt(z)
+        return Ref(z, self.elem, self.heap)
+
+    def unwrap(self, v):
+        if self.elem == "int":
+            return zint(v)
+        if v is None:
+            return z3.IntVal(0)
+        if isinstance(v, Ref):
+            return v.z
+        raise EngineLimit("element of wrong kind stored into sequence")
+
+    def _index(self, k, ip, what="index out of range"):
+        """Python index semantics -> z3 index in [0,n) ; explores the IndexError path"""
+        kz = zint(k)
+        n = self.n
+        j = ip.eng.choose([z3.And(kz >= 0, kz < n), z3.And(kz < 0, kz >= -n), z3.Or(kz >= n, kz < -n)], "idx")
+        if j == 2:
+            raise PyRaise(IndexError, what)
+        return kz if j == 0 else z3.simplify(n + kz)
+
+    def getitem(self, k, ip):
+        if isinstance(k, slice):
+            if k.step not in (None, 1):
+                raise EngineLimit("strided slice of symbolic sequence")
+            lo = self._bound(k.start, 0, ip)
+            hi = self._bound(k.stop, None, ip)
+            return SeqSlice(self, lo, hi)
+        if isinstance(k, SymReal) or isinstance(k, float):
+            raise PyRaise(IndexError, "only integers are valid indices")
+        return self.wrap(z3.Select(self.arr, self._index(k, ip)))
+
+    def _bound(self, b, default, ip):
+        n = self.n
+        if b is None:
+            return z3.IntVal(0) if default == 0 else n
+        bz = zint(b)
+        j = ip.eng.choose([z3.And(bz >= 0, bz <= n), bz > n, z3.And(bz < 0, bz >= -n), bz < -n], "slice")
+        return [bz, n, z3.simplify(n + bz), z3.IntVal(0)][j]
+
+    def setitem(self, k, v, ip):
+        if not self.mutable and self.kind != "ndarray":
+            raise PyRaise(TypeError, "object does not support item assignment")
+        j = self._index(k, ip, "assignment index out of range")
+        self.arr = z3.Store(self.arr, j, self.unwrap(v))
+
+    def attr(self, name, ip):
+        if self.kind == "list":
+            if name == "insert":
+                return lambda i, x: self.list_insert(i, x, ip)
+            if name == "append":
+                return lambda x: self.list_insert(self.length(), x, ip)
+            if name == "copy":
+                return lambda: self.clone()
+        if name in ("shape",):
+            return (self.length(),)
+        if name == "size":
+            return self.length()
+        raise EngineLimit("attribute %s of symbolic sequence" % name)
+
+    def list_insert(self, i, x, ip):
+        iz = zint(i)
+        n = self.n
+        j = ip.eng.choose([z3.And(iz >= 0, iz <= n), iz > n, z3.And(iz < 0, iz >= -n), iz < -n], "insert")
+        pos = [iz, n, z3.simplify(n + iz), z3.IntVal(0)][j]
+        new = inserted(self, pos, self.unwrap(x), ip.eng)
+        self.n, self.arr = new.n, new.arr
+
+    def key(self, elemz, fields=None):
+        if self.elem == "int":
+            return elemz
+        return self.heap.sel(self.key_field, elemz, fields)
+
+    def searchsorted(self, v, side, ip):
+        """trusted contract of np.searchsorted on a sequence sorted (non-strictly is enough) by key.
+        requires: sorted -- generated as an obligation at the call site."""
+        eng = ip.eng
+        inf = False
+        if isinstance(v, Ref):
+            if v.new is not None and (v.new, self.key_field) in self.heap.local:
+                kv = self.heap.local[(v.new, self.key_field)]
+                if kv == INF:
+                    inf = True
+                else:
+                    kv = zint(kv)
+            else:
+                kv = self.heap.sel(self.key_field, v.z)
+        elif isinstance(v, float) and v == INF:
+            inf = True
+        else:
+            kv = sym.znum(v)
+        if ip.on_obligation is not None:
+            j = z3.Int(sym.fresh_name("ss_j"))
+            ip.on_obligation("call-pre", "np.searchsorted.sequence_sorted",
+                             mkbool(z3.Implies(z3.And(0 <= j, j < self.n - 1),
+                                               self.key(z3.Select(self.arr, j)) <= self.key(z3.Select(self.arr, j + 1)))))
+        ip.used_trusted.add("np.searchsorted(side=%s) on a sorted sequence: result i with all keys before i %s v and all keys from i on %s v"
+                            % (side, "<" if side == "left" else "<=", ">=" if side == "left" else ">"))
+        if inf:
+            return self.length()
+        i = z3.Int(sym.fresh_name("ss"))
+        eng.assume(z3.And(i >= 0, i <= self.n))
+        j = z3.Int("j")
+        ej = z3.Select(self.arr, j)
+        if side == "left":
+            eng.assume(z3.ForAll([j], z3.Implies(z3.And(0 <= j, j < i), self.key(ej) < kv), patterns=[ej]))
+            eng.assume(z3.ForAll([j], z3.Implies(z3.And(i <= j, j < self.n), self.key(ej) >= kv), patterns=[ej]))
+        else:
+            eng.assume(z3.ForAll([j], z3.Implies(z3.And(0 <= j, j < i), self.key(ej) <= kv), patterns=[ej]))
+            eng.assume(z3.ForAll([j], z3.Implies(z3.And(i <= j, j < self.n), self.key(ej) > kv), patterns=[ej]))
+        return SymInt(i)
+
+    def contains(self, x, ip):
+        raise EngineLimit("membership in symbolic sequence")
+
+
+class SeqSlice:
+    """view seq[lo:hi] (bounds already clamped to [0,n]); only iterable through a loop invariant"""
+    __pyv_symbolic__ = True
+
+    def __init__(self, seq, lo, hi):
+        self.seq, self.lo, self.hi = seq, lo, hi
+
+
+def inserted(seq, pos, xz, eng):
+    """np.insert / list.insert: new sequence with x at pos (0 <= pos <= n)"""
+    SymSeq._ctr[0] += 1
+    arr = z3.Array("%s_ins%d" % ("seq", SymSeq._ctr[0]), z3.IntSort(), z3.IntSort())
+    j = z3.Int("j")
+    eng.assume(z3.ForAll([j], z3.Select(arr, j) == z3.If(j < pos, z3.Select(seq.arr, j),
+                                                         z3.If(j == pos, xz, z3.Select(seq.arr, j - 1))),
+                         patterns=[z3.Select(arr, j)]))
+    return seq.clone(z3.simplify(seq.n + 1), arr)
+
+
+def deleted(seq, pos, eng):
+    SymSeq._ctr[0] += 1
+    arr = z3.Array("%s_del%d" % ("seq", SymSeq._ctr[0]), z3.IntSort(), z3.IntSort())
+    j = z3.Int("j")
+    eng.assume(z3.ForAll([j], z3.Select(arr, j) == z3.If(j < pos, z3.Select(seq.arr, j), z3.Select(seq.arr, j + 1)),
+                         patterns=[z3.Select(arr, j)]))
+    return seq.clone(z3.simplify(seq.n - 1), arr)
+
+
+def np_insert(ip, args, kw):
+    seq, i, x = args[0], args[1], args[2]
+    if not isinstance(seq, SymSeq):
+        raise EngineLimit("np.insert on concrete array with symbolic argument")
+    iz = zint(i)
+    n = seq.n
+    j = ip.eng.choose([z3.And(iz >= 0, iz <= n), z3.And(iz < 0, iz >= -n), z3.Or(iz > n, iz < -n)], "np.insert")
+    if j == 2:
+        raise PyRaise(IndexError, "index out of bounds for np.insert")
+    pos = iz if j == 0 else z3.simplify(n + iz)
+    ip.used_trusted.add("np.insert(a, i, x): fresh array a[:i] + [x] + a[i:], IndexError outside [-n, n]")
+    r = inserted(seq, pos, seq.unwrap(x), ip.eng)
+    r.mutable = False
+    return r
+
+
+def np_delete(ip, args, kw):
+    seq, i = args[0], args[1]
+    if not isinstance(seq, SymSeq):
+        raise EngineLimit("np.delete on concrete array with symbolic argument")
+    iz = zint(i)
+    n = seq.n
+    j = ip.eng.choose([z3.And(iz >= 0, iz < n), z3.And(iz < 0, iz >= -n), z3.Or(iz >= n, iz < -n)], "np.delete")
+    if j == 2:
+        raise PyRaise(IndexError, "index is out of bounds for axis 0 (np.delete)")
+    pos = iz if j == 0 else z3.simplify(n + iz)
+    ip.used_trusted.add("np.delete(a, i): fresh array a[:i] + a[i+1:], IndexError outside [-n, n)")
+    return deleted(seq, pos, ip.eng)
 
 
 def slice_concrete(ip, obj, k):
-    raise EngineLimit("slice with symbolic bound")
+    raise EngineLimit("slice of a concrete sequence with symbolic bound")
 
 
 def binop(ip, op, a, b):
     raise EngineLimit("operator on symbolic sequence")
-
-
-def ref_is(a, b):
-    raise EngineLimit("ref identity")
-
-
-def ref_compare(ip, op, a, b):
-    raise EngineLimit("ref comparison")
